@@ -32,3 +32,31 @@ func TestVerifReplayUnmarshalSessionExact(t *testing.T) {
 		t.Errorf("opened session differs from the sealed one:\n in  %+v\n out %+v", in, out)
 	}
 }
+
+// ... and for ensures[what_opens_is_returned]: a genuine value opens whatever the session says — deadlines long
+// past, empty fields.
+func TestVerifReplayWhatOpensIsReturned(t *testing.T) {
+	c, err := aead.NewMiscreantCipher([]byte("0123456789abcdef0123456789abcdef0123456789abcdef0123456789abcdef"))
+	if err != nil {
+		t.Skip(err)
+	}
+	past := time.Now().Add(-365 * 24 * time.Hour).Truncate(time.Second).UTC()
+	for _, in := range []*SessionState{
+		{Email: "u@example.com", LifetimeDeadline: past, RefreshDeadline: past, ValidDeadline: past},
+		{},
+		{Email: "", AccessToken: "at", LifetimeDeadline: time.Now().Add(-time.Minute).Truncate(time.Second).UTC()},
+	} {
+		sealed, err := MarshalSession(in, c)
+		if err != nil {
+			t.Skip(err)
+		}
+		out, err := UnmarshalSession(sealed, c)
+		if err != nil || out == nil {
+			t.Errorf("a genuine sealed value (%+v) was refused: %v", in, err)
+			continue
+		}
+		if !reflect.DeepEqual(in, out) {
+			t.Errorf("opened session differs: in %+v out %+v", in, out)
+		}
+	}
+}
